@@ -54,6 +54,8 @@ impl State {
 //@use compile.fns State::dict_key
 //@use compile.fns State::dict_entry
 //@use compile.fns State::dict_pos
+//@use compile.fns State::run_immediate
+//@use compile.fns State::build_word
 //@use state.fns State::alloc_heap assumed
 //@use state.fns State::check_heap_limit assumed
 }
@@ -94,7 +96,8 @@ pub uninterp spec fn xstr_text(s: Xstr) -> Seq<char>;
 spec fn dict_last(d: Seq<DictEntry>, t: Seq<char>, i: int) -> bool {
     0 <= i < d.len() && xstr_text(d[i].name) == t && forall|j: int| i < j < d.len() ==> xstr_text(d[j].name) != t
 }
-impl Xsubstr { #[verifier::external_body] pub fn as_str(&self) -> (r: &str) { unimplemented!() } }
+pub uninterp spec fn sub_str(t: Xsubstr) -> &'static str;
+impl Xsubstr { #[verifier::external_body] pub fn as_str(&self) -> (r: &str) ensures r == sub_str(*self) { unimplemented!() } }
 impl Xstr { #[verifier::external_body] pub fn as_str(&self) -> (r: &str) ensures name_text(r) == xstr_text(*self) { unimplemented!() } }
 impl Xerr {
     #[verifier::external_body] pub fn conditional_var_definition() -> Xerr { unimplemented!() }
